@@ -120,7 +120,13 @@ def build_py(d, ui, python, cse, want_ekf, presentation=None):
     model, symtab = make_ui_model(d, ui, container=pres.get("container", set), order=pres.get("order"),
                                   as_string=pres.get("as_string", False), proactive_simplify=pres.get("proactive_simplify", False))
     cfg = {"common_subexpression_elimination": bool(cse), "innovation_filtering": d.gate()}
-    pn, sm, sn, cm = ekf_args(d, symtab, order=pres.get("order"))
+    from build import uses_fn, user_sat
+    if any(uses_fn(t, "sat") for t in list(d.update.values()) + [t for m in d.sensors.values() for t in m.values()]):
+        mods_ = list(python.DEFAULT_MODULES)
+        extra = dict(mods_[-1]) if isinstance(mods_[-1], dict) else {}
+        extra["sat"] = user_sat
+        cfg["python_modules"] = tuple(mods_[:-1] + [extra]) if isinstance(mods_[-1], dict) else tuple(mods_ + [extra])
+    pn, sm, sn, cm = ekf_args(d, symtab, order=pres.get("order"), variety=pres.get("variety"))
     if want_ekf:
         impl = python.compile_ekf(model, process_noise=pn, sensor_models=sm, sensor_noises=sn,
                                   calibration_map=cm, config=cfg)
@@ -143,6 +149,8 @@ def replay(scn, ui, python, cse=True, presentation=None, force_ekf=False):
         return res
     calenv = {c: fl(d.calmap[c]) for c in d.calib}
     est = None
+    kept = []        # results handed out earlier must not change when the model is used again
+    asym = bool(resolve_presentation(presentation, d).get("variety"))
     lay = scn.get("layout")
     if lay:
         # the layouts the objects publish must be the specification's name order (SortNames)
@@ -193,6 +201,7 @@ def replay(scn, ui, python, cse=True, presentation=None, force_ekf=False):
                     obs = proj_vec(out)
                     res.trace.append(obs)
                     res.values += cmp_vec(res.mismatches, "xn", i, obs, st["xn"], d.update, env)
+                    kept.append((i, out, st, env))
                 else:
                     G = impl.process_jacobian(dt, state, control)
                     V = impl.control_jacobian(dt, state, control)
@@ -227,6 +236,10 @@ def replay(scn, ui, python, cse=True, presentation=None, force_ekf=False):
                 for a, r in enumerate(names):
                     for b, c in enumerate(names):
                         data[a, b] = fl(st["P"][r][c])
+                if asym and len(names) >= 2:
+                    # a covariance that is symmetric only up to rounding (2^-40 relative on one off-diagonal entry): accepted by the
+                    # library, expectations move by < 1e-12; makes "a discard leaves the covariance EXACTLY as it was" observable
+                    data[0, 1] += (abs(data[0, 1]) + 1.0) * 2.0 ** -40
                 cov = impl.Covariance.from_data(data)
                 est = (state, cov)
                 res.trace.append({"x": proj_vec(state), "P": proj_cov(cov)})
@@ -269,8 +282,10 @@ def replay(scn, ui, python, cse=True, presentation=None, force_ekf=False):
                 oS = proj_mat(impl.sensor_prediction_uncertainty[key], sm.readings, sm.readings)
                 res.values += cmp_vec(res.mismatches, "x", i, ox, st["x"])
                 res.values += cmp_mat(res.mismatches, "P", i, oP, st["P"])
-                res.values += cmp_vec(res.mismatches, "innov", i, oin, st["innov"])
-                res.values += cmp_mat(res.mismatches, "S", i, oS, st["S"])
+                if "innov" in st:
+                    res.values += cmp_vec(res.mismatches, "innov", i, oin, st["innov"])
+                if "S" in st:
+                    res.values += cmp_mat(res.mismatches, "S", i, oS, st["S"])
                 if st["outcome"] == "rejected":
                     # a discard changes NOTHING: bit-identical estimate
                     if not (np.array_equal(nxt.state.data, s0) and np.array_equal(nxt.covariance.data, c0)):
@@ -288,6 +303,9 @@ def replay(scn, ui, python, cse=True, presentation=None, force_ekf=False):
             res.mismatches.append(Mismatch(step=i, what="exception", name=act, expected="a result",
                                            observed=repr(e)[:500], tb=traceback.format_exc()[-1500:]))
             return res
+    for i, out, st, env in kept:
+        before = len(res.mismatches)
+        cmp_vec(res.mismatches, "xn-reread-at-end", i, proj_vec(out), st["xn"], d.update, env)
     return res
 
 
